@@ -6,8 +6,8 @@
    [exact <lemma>].  [runs T m s b b' v] (Proofs/ZfRunP.v) reads: on ANY reader state whose unconsumed input
    is s ++ t with T t, parenthesis state b, the parser action m returns v, consumes exactly s, ends in
    parenthesis state b' and has advanced the line counter by the number of LF octets in s.
-   Not covered by the renderer (docs/C23.md): WKS in its own syntax, $INCLUDE lines, the "::" and embedded
-   IPv4 forms of IPv6 text, a raw CR inside an unquoted token. *)
+   Not covered by the renderer (docs/C23.md): $INCLUDE lines, the "::" and embedded IPv4 forms of IPv6 text,
+   a raw CR inside an unquoted token.  The WKS bit map uses the implementation's bit order (finding 3). *)
 From QV Require Import Base.ListX Model.NameWire Spec.NameRepr Model.ZfStd Model.ZfReader Model.ZfParser
   Spec.ZfValidS Spec.ZfRenderS Proofs.ZfReaderP Proofs.ZfFieldsP Proofs.ZfRunP Proofs.ZfTokP Proofs.ZfNameRP Proofs.ZfSymP
   Proofs.ZfAddrP Proofs.ZfRecRP Proofs.ZfLineRP.
@@ -77,8 +77,8 @@ Proof. exact expect_eol_runs. Qed.
 (* ---- stage 3: RDATA and one record line ------------------------------------------------------------------------------------------- *)
 
 (* parse_rdata on the rendered RDATA of every type with a syntax of its own (NS MD MF CNAME MB MG MR PTR,
-   A, CH A, SOA, HINFO, MINFO, MX, TXT, AAAA, SRV) in that syntax or in the RFC 3597 \# form, and of every
-   other type in the \# form (hexadecimal data split into words at will) *)
+   A, CH A, SOA, WKS, HINFO, MINFO, MX, TXT, AAAA, SRV — all the parser has) in that syntax or in the RFC 3597
+   \# form, and of every other type in the \# form (hexadecimal data split into words at will) *)
 Theorem c23_rdata : forall x class type dc d e p p3, sctx_good x ->
   rdata_ok (x_origin x) p class type dc d = Some p3 -> eol_ok p3 e = true ->
   runs (eoft (e_term e)) (parse_rdata (ctx_of x) class type) (render_rdata dc d ++ render_eol e) p false (rdata_wire d).
